@@ -595,7 +595,7 @@ class C03(Spec):
     level_text = ('Partial. Proved over the model: escape_confined (replaceSpecialChars output contains no raw <, >, and every & starts an '
                   'entity), C03_guards (in every non-zero mode -specials is refused, raw [html-attributes] are ignored, definition elements '
                   'are skipped -- facts recomputed from the generated guards), C03_policy (the HTML filter returns nothing, the replacement '
-                  'or escaped text for policies 1,2,3). The full Forest theorem for render is not proved; the output grammar is checked by the '
+                  'or escaped text for policies 1,2,3). Also C03_definitions_fixed (frame theorem: a document rendered in a non-zero mode cannot change any definition), C03_blocks_escape_or_filter (table fact), C03_plain_text_escaped (paragraph text over the plain alphabet renders to exactly its escape). The full Forest theorem for render is not proved; the output grammar is checked by the '
                   'tokeniser oracle on the implementation and the model is compared on full HTML at the 12 policy modes.')
     rule = ('token-soup and attribute/URL-injection documents x 12 policy modes x replacement sentinel; output tokenised with the '
             'strict grammar of DESIGN appendix B; non-trivial = output contains a tag other than <p>')
@@ -632,9 +632,12 @@ class C03(Spec):
 
 
 class C06(Spec):
-    level_text = ('Partial. Proved: fragQuote_structure lemmas are not yet available; the claim rests on the balanced-tag oracle over the '
-                  'implementation and the model/implementation comparison on full HTML. Listed as proof-level only for the emitted-tag '
-                  'table facts (every generated open tag has its close tag in the same definition, checked on the generated tables).')
+    level_text = ('Partial. Proved: C06_templates_balanced (every open / close tag pair and every replacement template of the generated tables is '
+                  'balanced on its own: recomputed on every run), C06_default_replacement_balanced, C06_definitions_fixed (in a non-zero safe mode '
+                  'a document cannot change the quote, replacement or block definitions: frame theorem), C06_blocks_escape_or_filter (every '
+                  'generated block definition either escapes specials or passes its content through the HTML filter), C06_list_wrapped (whatever '
+                  'a list renders is enclosed in the open and close tag of its definition). Balance of a whole render -- that the pieces nest -- is '
+                  'not proved; it is decided by the balanced-tag oracle over the implementation and the comparison on full HTML.')
     rule = ('token-soup documents at the 12 HTML-filtering modes, and <-free token soup at mode 0 without definitions; tag stack over '
             'the tokenised output; non-trivial = output contains a tag other than <p>')
     state_keys = []
